@@ -158,6 +158,23 @@ def r3(ctx, R):
         st = [n for n, s in cfg.stmt_of.items() if isinstance(s, ast.Expr) and ast.unparse(s.value) == 'object.__setattr__(self, key, value)']
         ok = ok and len(st) == 1 and not cfg.reachable(rs[0][0], st[0])
     R.check(ok, 'FrozenClass.__setattr__ :: raises TypeError when frozen and the name is neither declared nor allow-listed, before storing', w, 'if frozen and not (key in attrs or hasattr(self, key)): raise TypeError', [facts.guard_strings(cfg, s) for _, s in rs])
+    # the allow-list is per class: a fresh list bound unconditionally when the subclass is created, never a shared object
+    fn = repo.func(HELP, 'FrozenClass.__init_subclass__')
+    w = f'{HELP}:FrozenClass.__init_subclass__'
+    R.fn(w)
+    cfg = FuncCFG(fn)
+    at = [s_ for s_ in cfg.stmt_of.values() if isinstance(s_, (ast.Assign, ast.AugAssign)) and any(ast.unparse(t) == 'cls.attrs' for t in (s_.targets if isinstance(s_, ast.Assign) else [s_.target]))]
+    fresh = len(at) == 1 and isinstance(at[0], ast.Assign) and (isinstance(at[0].value, ast.List) and not at[0].value.elts or ast.unparse(at[0].value) == 'list()') and not cfg.guards.get(id(at[0]))
+    R.check(fresh, 'FrozenClass.__init_subclass__ :: every frozen class gets its OWN empty allow-list (names allowed on one class are not allowed on another)', w, 'cls.attrs = [] unconditionally, the only binding', [ast.unparse(s_) for s_ in at])
+    others = []
+    for m, ci, f in repo.all_functions():
+        if (ci.name if ci else '', f.name) == ('FrozenClass', '__init_subclass__'):
+            continue
+        for s_ in walk_no_nested(f):
+            tg = s_.targets if isinstance(s_, ast.Assign) else []
+            if any(isinstance(t, ast.Attribute) and t.attr == 'attrs' and ast.unparse(t.value) in ('cls', 'type(self)', 'self') for t in tg) and m.relpath == HELP:
+                others.append(f'{f.name}: {ast.unparse(s_)}')
+    R.check(not others, 'FrozenClass :: the allow-list is rebound nowhere else (add_attr only extends the list of its own class)', HELP, 'no other `cls.attrs = ..`', others)
     # __dict__ stores: inventory
     allowed = {'ConvergenceController.set_step_status_variable': 'S.status.__dict__[key]', 'ConvergenceController.set_level_status_variable': 'L.status.__dict__[key]',
                'GenericSpectralLinear.setup_GPU': "self.__dict__['comm']"}
@@ -412,6 +429,12 @@ def r9(ctx, R):
     rets = [ast.unparse(s.value) for s in ast.walk(fn) if isinstance(s, ast.Return)]
     R.fn(f'{rel}:Sweeper.buildGenerator')
     R.check(len(rets) == 1 and rets[0].startswith('QDELTA_GENERATORS[qdType]('), 'Sweeper.buildGenerator :: the name is resolved by a subscript lookup (KeyError for unknown names)', f'{rel}:Sweeper.buildGenerator', 'QDELTA_GENERATORS[qdType](..)', rets)
+    qdelta_cache(ctx, R)
+
+
+def qdelta_cache(ctx, R):
+    repo = ctx.repo
+    rel = 'pySDC/core/sweeper.py'
     for meth, attr in (('get_Qdelta_implicit', 'genQI'), ('get_Qdelta_explicit', 'genQE')):
         fn = repo.func(rel, f'Sweeper.{meth}')
         w = f'{rel}:Sweeper.{meth}'
